@@ -94,6 +94,21 @@ void ret_blob(vs_call *c, const void *p, size_t len);
 
 void *vs_alloc_poisoned(size_t n);
 
+/* type registry (vs_types_ext.c): mk returns 0 on success (fills s->p, s->len, s->sub), 1 if the value does
+ * not fit this configuration, -1 on a malformed payload */
+typedef struct {
+	int (*mk)(vs_slot *s, vs_rd *r);
+	void (*dump)(const vs_slot *s, vs_wr *w);
+	void (*fr)(vs_slot *s);
+	uint64_t (*hash)(const vs_slot *s);
+} vs_type_ops;
+void vs_register_type(int type, vs_type_ops ops);
+#define VS_TYPE(id, mkf, dumpf, freef, hashf)                                                   \
+	static void __attribute__((constructor)) regtype_##id(void) {                              \
+		vs_type_ops o = { mkf, dumpf, freef, hashf };                                          \
+		vs_register_type(id, o);                                                               \
+	}
+
 int vs_exec(const uint8_t *req, size_t len, vs_wr *out);
 void vs_init(void);
 
